@@ -122,14 +122,14 @@ def exRun : Trace :=
   [(0, .lock 7), (0, .wr 2), (0, .rd 1), (0, .unlock 7), (0, .lock 9), (0, .rd 13), (0, .unlock 9), (0, .wgAdd 12),
    (0, .spawn 2), (0, .spawn 1), (0, .rd 8), (0, .rd 9), (0, .send 19), (1, .start), (1, .spawn 4), (1, .recv 19),
    (1, .send 4), (0, .recv 4), (0, .lock 8), (0, .rd 11), (0, .unlock 8), (0, .send 35), (1, .wr 8), (1, .wr 7),
-   (1, .rd 8), (2, .start), (2, .lock 7), (2, .wr 2), (2, .rd 1), (2, .unlock 7), (2, .send 2), (3, .lock 9),
-   (3, .wr 13), (3, .wr 15), (3, .unlock 9), (4, .start), (4, .recv 2), (4, .wr 3), (4, .lock 7), (4, .wr 2),
-   (4, .wr 1), (4, .unlock 7), (4, .wgAdd 10), (4, .spawn 5), (5, .start), (5, .wr 4), (5, .wgDone 10),
-   (4, .wgWait 10), (4, .send 1), (1, .recv 1), (1, .rd 3), (1, .rd 5), (1, .rd 4), (1, .wgAdd 11), (1, .spawn 7),
-   (7, .start), (7, .wr 7), (7, .rd 8), (7, .wr 8), (7, .wgDone 11), (1, .wgWait 11), (1, .rd 7), (1, .rd 9),
-   (1, .wr 14), (1, .wr 10), (1, .send 5), (1, .wgAdd 27), (1, .spawn 9), (3, .recv 5), (3, .rd 10), (3, .wr 15),
-   (3, .lock 9), (3, .wr 13), (3, .wr 15), (3, .unlock 9), (9, .start), (9, .wr 7), (9, .rd 8), (9, .wr 8),
-   (9, .wgDone 27), (1, .wgWait 27), (1, .wr 7), (1, .rd 11), (1, .wr 12), (1, .spawn 20), (1, .recv 35),
+   (1, .rd 8), (2, .start), (2, .lock 7), (2, .wr 2), (2, .rd 1), (2, .unlock 7), (2, .wr 0), (2, .rd 0),
+   (2, .send 2), (3, .lock 9), (3, .wr 13), (3, .wr 15), (3, .unlock 9), (4, .start), (4, .recv 2), (4, .wr 3),
+   (4, .lock 7), (4, .wr 2), (4, .wr 1), (4, .unlock 7), (4, .wgAdd 10), (4, .spawn 5), (5, .start), (5, .wr 4),
+   (5, .wgDone 10), (4, .wgWait 10), (4, .send 1), (1, .recv 1), (1, .rd 3), (1, .rd 5), (1, .rd 4), (1, .wgAdd 11),
+   (1, .spawn 7), (7, .start), (7, .wr 7), (7, .rd 8), (7, .wr 8), (7, .wgDone 11), (1, .wgWait 11), (1, .rd 7),
+   (1, .rd 9), (1, .wr 14), (1, .wr 10), (1, .send 5), (1, .wgAdd 27), (1, .spawn 9), (3, .recv 5), (3, .rd 10),
+   (3, .wr 15), (3, .lock 9), (3, .wr 13), (3, .wr 15), (3, .unlock 9), (9, .start), (9, .wr 7), (9, .rd 8),
+   (9, .wr 8), (9, .wgDone 27), (1, .wgWait 27), (1, .wr 7), (1, .rd 11), (1, .wr 12), (1, .spawn 20), (1, .recv 35),
    (1, .send 4), (0, .recv 4), (0, .close 13), (1, .wr 5), (1, .spawn 10), (2, .recvC 13), (2, .close 2),
    (20, .start), (20, .recvC 2), (20, .close 1), (1, .recvC 1), (1, .lock 8), (1, .rd 11), (1, .unlock 8),
    (1, .wgDone 12), (0, .wgWait 12), (0, .rd 11), (10, .start)]
@@ -140,6 +140,6 @@ set_option maxRecDepth 100000 in
 example : feasible exRun = true := by decide
 /-- every event of every thread has been executed, except the last two of the archive writer, which waits for a
 block that the single data block of this instance never fills -/
-example : exRun.length = 104 ∧ totalEvents exSched = 106 := by decide
+example : exRun.length = 106 ∧ totalEvents exSched = 108 := by decide
 
 end DastardV.C17
